@@ -29,7 +29,7 @@ func (ex *Exec) stepCall(st *State, c *ssa.Call) []*State {
 		if h == nil {
 			ex.failObl("dep", "uncontracted/"+name, "interface method without an assumed contract", ex.fnTags(), c)
 			st.vals[c] = ex.freshOfType(st, "r_"+cc.Method.Name(), c.Type(), false)
-			ex.havocReachable(st, args)
+			ex.havocReachable(st, args, &c.Call)
 			return nil
 		}
 		ex.p.usedDeps[name] = true
@@ -76,7 +76,23 @@ func (ex *Exec) havocAll(st *State) {
 
 // havocReachable forgets the contents of every heap object handed to an
 // unknown dependency function (and lets it allocate).
-func (ex *Exec) havocReachable(st *State, args []SV) {
+func (ex *Exec) havocReachable(st *State, args []SV, cc ...*ssa.CallCommon) {
+	// static types of the arguments tell which heap a reference lives in
+	var argTypes []types.Type
+	if len(cc) > 0 && cc[0] != nil {
+		if cc[0].IsInvoke() {
+			argTypes = append(argTypes, cc[0].Value.Type())
+		}
+		for _, a := range cc[0].Args {
+			argTypes = append(argTypes, a.Type())
+		}
+	}
+	classOf := func(i int) string {
+		if i < len(argTypes) {
+			return classify(argTypes[i]).What
+		}
+		return ""
+	}
 	if k, ok := modelInt(st.next.S); ok && isAtom(st.next.S) {
 		// concrete allocation counter (package initialiser): keep it concrete
 		st.next = IntLit(k.Int64() + 16)
@@ -89,6 +105,7 @@ func (ex *Exec) havocReachable(st *State, args []SV) {
 		elem := elemSortOfArray(heapSort[h])
 		st.heap[h] = ex.define(st, h, Store(st.heap[h], ref, ex.fresh(h+"_unk", elem)))
 	}
+	argIndex := -1
 	var visit func(a SV)
 	visit = func(a SV) {
 		switch a.K {
@@ -104,8 +121,20 @@ func (ex *Exec) havocReachable(st *State, args []SV) {
 			}
 		case KScalar:
 			if a.T.Sort == SInt && !isAtom(a.T.S) || (a.T.Sort == SInt && isAtom(a.T.S) && !isNumeral(a.T.S)) {
-				// a reference of unknown class: any object it may denote
-				for _, h := range []string{"BigVal", "MDom", "MVal", "HAcc", "RPos"} {
+				// a reference: the objects of the heaps its static type can denote
+				var hs []string
+				switch classOf(argIndex) {
+				case "bigint":
+					hs = []string{"BigVal"}
+				case "map":
+					hs = []string{"MDom", "MVal"}
+				case "iface":
+					hs = []string{"HAcc", "RPos"}
+				case "int", "bool", "string", "error", "any":
+				default:
+					hs = []string{"BigVal", "MDom", "MVal", "HAcc", "RPos"}
+				}
+				for _, h := range hs {
 					upd(h, a.T)
 				}
 			}
@@ -125,7 +154,8 @@ func (ex *Exec) havocReachable(st *State, args []SV) {
 			}
 		}
 	}
-	for _, a := range args {
+	for i, a := range args {
+		argIndex = i
 		visit(a)
 	}
 }
@@ -258,7 +288,7 @@ func (ex *Exec) callStatic(st *State, c *ssa.Call, callee *ssa.Function, args []
 		st.vals[c] = rsv
 		// a function of another package can only reach what it is handed: the
 		// objects reachable from its arguments become unknown, nothing else
-		ex.havocReachable(st, args)
+		ex.havocReachable(st, args, &c.Call)
 		return nil
 	}
 	ex.p.usedDeps[full] = true
